@@ -164,6 +164,149 @@ fn execute(msgs: &[AnyMessage], pipe: usize, disconnect: bool) -> Obs {
     })
 }
 
+/// Two peers on one interface: sends are dispatched alternately; each peer's pipe must carry
+/// exactly its own messages, in dispatch order (operations of one peer wait only for that peer).
+/// Returns per peer the arrival order as indices into its own dispatch list, or an error.
+fn execute_two_peers(per_peer: &[Vec<AnyMessage>; 2], pipe: usize) -> Result<[Vec<usize>; 2], String> {
+    let rt = match tokio::runtime::Builder::new_current_thread().enable_time().build() {
+        Ok(r) => r,
+        Err(e) => mc_core::report::machinery_failure(&format!("C20 iface: cannot build a current-thread runtime: {e}")),
+    };
+    rt.block_on(async {
+        use futures::StreamExt;
+        let pids = [PeerId { host: "mem-a".into(), port: 1 }, PeerId { host: "mem-b".into(), port: 2 }];
+        let mut iface = TcpInterface::<AnyMessage>::new();
+        let mut far = vec![];
+        for pid in &pids {
+            let (a, b) = tokio::io::duplex(pipe);
+            iface.verif_attach(pid.clone(), Bearer::Mem(a));
+            far.push(b);
+        }
+        let body = async {
+            let mut connected = 0;
+            while connected < 2 {
+                match iface.next().await {
+                    Some(InterfaceEvent::Connected(_)) => connected += 1,
+                    Some(_) => {}
+                    None => return Err("interface stream ended before Connected".to_string()),
+                }
+            }
+            let n = per_peer[0].len().max(per_peer[1].len());
+            for i in 0..n {
+                for p in 0..2 {
+                    if let Some(m) = per_peer[p].get(i) {
+                        iface.dispatch(InterfaceCommand::Send(pids[p].clone(), m.clone()));
+                    }
+                }
+            }
+            let mut readers = vec![];
+            for (p, b) in far.into_iter().enumerate() {
+                let mine: Vec<(u16, Vec<u8>)> = per_peer[p].iter().map(|m| (m.channel(), m.payload())).collect();
+                readers.push(tokio::spawn(async move {
+                    let (mut rb, _wb) = Bearer::Mem(b).into_split();
+                    let mut partial: HashMap<u16, Vec<u8>> = HashMap::new();
+                    let mut arrived = vec![];
+                    while arrived.len() < mine.len() {
+                        match rb.read_full_msgs::<AnyMessage>(&mut partial).await {
+                            Ok(ms) => {
+                                for m in ms {
+                                    let key = (m.channel(), m.payload());
+                                    arrived.push(mine.iter().position(|x| *x == key).unwrap_or(usize::MAX));
+                                }
+                            }
+                            Err(e) => return Err(format!("reader {p}: {e}")),
+                        }
+                    }
+                    // the far end stays open until the run is over (closing it early would be
+                    // an EOF on the interface's read side, an event of its own)
+                    Ok((arrived, rb, _wb))
+                }));
+            }
+            let total = per_peer[0].len() + per_peer[1].len();
+            let mut sent = 0;
+            while sent < total {
+                match iface.next().await {
+                    Some(InterfaceEvent::Sent(..)) => sent += 1,
+                    Some(InterfaceEvent::Error(_, e)) => return Err(format!("interface error: {e:?}")),
+                    Some(_) => {}
+                    None => return Err("interface stream ended".to_string()),
+                }
+            }
+            let mut out: [Vec<usize>; 2] = [vec![], vec![]];
+            let mut keep = vec![];
+            for (p, r) in readers.into_iter().enumerate() {
+                let (arrived, rb, wb) = r.await.map_err(|e| format!("reader task: {e}"))??;
+                out[p] = arrived;
+                keep.push((rb, wb));
+            }
+            Ok(out)
+        };
+        match tokio::time::timeout(std::time::Duration::from_secs(60), body).await {
+            Ok(o) => o,
+            Err(_) => Err("stalled: not all messages were delivered within 60 s".to_string()),
+        }
+    })
+}
+
+/// Grid of two-peer configurations; returns (configurations, messages).
+pub fn run_two_peers(ctx: &Ctx) -> (u64, u64) {
+    use rayon::prelude::*;
+    let segs: &[usize] = if ctx.thorough { &[1, 2, 64, 65, 129, 200] } else { &[2, 65, 129] };
+    let pipes: &[usize] = &[4096, 1 << 26];
+    let mut jobs = vec![];
+    for &s0 in segs {
+        for &s1 in segs {
+            for &p in pipes {
+                jobs.push((s0, s1, p));
+            }
+        }
+    }
+    let n: Vec<u64> = jobs
+        .par_iter()
+        .map(|&(s0, s1, pipe)| {
+            let per_peer = [
+                vec![AnyMessage::BlockFetch(proto::blockfetch::Message::StartBatch), block(s0, 21), block(2, 22), AnyMessage::BlockFetch(proto::blockfetch::Message::BatchDone), ka(5)],
+                vec![block(s1, 31), ka(6), block(1, 32), AnyMessage::BlockFetch(proto::blockfetch::Message::BatchDone)],
+            ];
+            let r1 = execute_two_peers(&per_peer, pipe);
+            let r2 = execute_two_peers(&per_peer, pipe);
+            if r1 != r2 {
+                mc_core::report::machinery_failure(&format!("C20 iface: two runs of the two-peer configuration ({s0}, {s1}, pipe {pipe}) differ"));
+            }
+            let case = json!({"stack": "network2", "part": "interface-two-peers", "segments": [s0, s1], "pipe": pipe});
+            match r1 {
+                Err(e) => {
+                    let kind = if e.starts_with("stalled") { "stalled" } else { "error" };
+                    ctx.violation(format!("C20:net2:iface2:{kind}"), format!("two peers, first messages of {s0} / {s1} segments, pipe {pipe}: {e}"), case);
+                }
+                Ok(arr) => {
+                    for p in 0..2 {
+                        // per channel of this peer: arrival order = dispatch order
+                        let mut want: BTreeMap<u16, Vec<usize>> = BTreeMap::new();
+                        for (i, m) in per_peer[p].iter().enumerate() {
+                            want.entry(m.channel()).or_default().push(i);
+                        }
+                        let mut got: BTreeMap<u16, Vec<usize>> = BTreeMap::new();
+                        for &i in &arr[p] {
+                            let ch = per_peer[p].get(i).map(|m| m.channel()).unwrap_or(u16::MAX);
+                            got.entry(ch).or_default().push(i);
+                        }
+                        if got != want {
+                            ctx.violation(
+                                "C20:net2:iface2:delivery".to_string(),
+                                format!("two peers, first messages of {s0} / {s1} segments, pipe {pipe}: peer {p} received {got:?}, dispatched {want:?} (usize::MAX = a message that was not dispatched to this peer)"),
+                                case.clone(),
+                            );
+                        }
+                    }
+                }
+            }
+            (per_peer[0].len() + per_peer[1].len()) as u64
+        })
+        .collect();
+    (n.len() as u64, n.iter().sum())
+}
+
 pub fn run_part(ctx: &Ctx) -> PartResult {
     use rayon::prelude::*;
     let segs: &[usize] = if ctx.thorough { &[1, 2, 3, 31, 32, 33, 63, 64, 65, 127, 128, 129, 130, 200, 300] } else { &[1, 2, 32, 64, 65, 129, 200] };
